@@ -147,11 +147,12 @@ func main() {
 	out := fs.String("out", ".", "output directory")
 	corpus := fs.String("corpus", "", "corpus directory (files *.ops for this component run first)")
 	opsFile := fs.String("ops", "", "ops file to replay")
+	noGen := fs.Bool("nogen", false, "run only the corpus ops (no generation)")
 	_ = fs.Parse(os.Args[3:])
 
 	switch mode {
 	case "gen":
-		runGen(name, c, *seed, *tier, *out, *corpus)
+		runGen(name, c, *seed, *tier, *out, *corpus, *noGen)
 	case "replay":
 		f, err := os.Open(*opsFile)
 		if err != nil {
@@ -176,7 +177,7 @@ func main() {
 	}
 }
 
-func runGen(name string, c Component, seed uint64, tier, out, corpus string) {
+func runGen(name string, c Component, seed uint64, tier, out, corpus string, noGen bool) {
 	_ = os.MkdirAll(out, 0o755)
 	opsW := mustCreate(filepath.Join(out, name+".ops"))
 	implW := mustCreate(filepath.Join(out, name+".impl"))
@@ -224,7 +225,9 @@ func runGen(name string, c Component, seed uint64, tier, out, corpus string) {
 			}
 		}
 	}
-	c.Gen(NewRand(seed), tier, emit)
+	if !noGen {
+		c.Gen(NewRand(seed), tier, emit)
+	}
 	st.DistinctNontrival = len(distinct)
 	b, _ := json.MarshalIndent(st, "", " ")
 	_ = os.WriteFile(filepath.Join(out, name+".stats.json"), b, 0o644)
